@@ -13,6 +13,7 @@ import (
 	"net/http"
 	"reflect"
 	"runtime"
+	"strings"
 	"sync/atomic"
 	"time"
 
@@ -29,13 +30,24 @@ type FreeOut struct {
 	Err        string `json:"err,omitempty"`
 }
 
-// the script's own response (scripts here have no ctx check, no panic, valid codes)
-func expected(c Case) (int, http.Header, []byte) {
+// the script's own response (scripts here have no ctx check, no panic, valid final codes);
+// flushedAt = the body lengths that were out at the script's effective Flush calls
+func expected(c Case) (int, http.Header, []byte, []int) {
 	h := http.Header{}
 	code, wrote := 200, false
 	var body []byte
+	var frozen http.Header
+	flushedAt := []int{}
 	for _, a := range c.Script {
 		switch a[0].(string) {
+		case "flush":
+			if c.Fl {
+				wrote = true
+				if frozen == nil {
+					frozen = h.Clone()
+				}
+				flushedAt = append(flushedAt, len(body))
+			}
 		case "set":
 			h.Set(hname(num(a[1])), hval(num(a[2])))
 		case "add":
@@ -59,16 +71,19 @@ func expected(c Case) (int, http.Header, []byte) {
 			res.Add(hname(num(kv[0])), hval(num(v)))
 		}
 	}
+	if frozen != nil {
+		h = frozen
+	}
 	for k, v := range h {
 		res[k] = v
 	}
-	return code, res, body
+	return code, res, body, flushedAt
 }
 
 func runFree(c Case) FreeOut {
 	out := FreeOut{ID: c.ID}
 	rng := rand.New(rand.NewSource(int64(c.ID)*7919 + 1))
-	wantCode, wantHdr, wantBody := expected(c)
+	wantCode, wantHdr, wantBody, flushedAt := expected(c)
 	h0 := http.Header{}
 	for _, kv := range c.H0 {
 		for _, v := range kv[1].([]any) {
@@ -109,12 +124,16 @@ func runFree(c Case) FreeOut {
 						p[i] = byte(num(b))
 					}
 					w.Write(p)
+				case "flush":
+					if f, ok := w.(http.Flusher); ok {
+						f.Flush()
+					}
 				}
 			}
 		})
 		rw := &recw{hdr: h0.Clone(), sret: &sret, sgid: gid()}
 		req, _ := http.NewRequestWithContext(context.Background(), http.MethodGet, "http://localhost/x", http.NoBody)
-		handler.TimeoutHandler(dur)(work).ServeHTTP(rw, req)
+		handler.TimeoutHandler(dur)(work).ServeHTTP(asWriter(rw, c.Fl), req)
 		sret.Store(true)
 		select {
 		case <-hDone:
@@ -125,6 +144,17 @@ func runFree(c Case) FreeOut {
 		rw.mu.Lock()
 		isComplete := rw.code == wantCode && reflect.DeepEqual(rw.snap, wantHdr) && string(rw.body) == string(wantBody)
 		isTimeout := rw.code == 503 && reflect.DeepEqual(rw.snap, h0) && string(rw.body) == "Request Timeout"
+		if !isTimeout && len(rw.infos) == 0 && strings.HasSuffix(string(rw.body), "Request Timeout") {
+			// the handler had flushed before the deadline: its status and first-Flush headers, the
+			// chunks that were out at one of its Flush calls, then the reply and nothing else
+			pre := len(rw.body) - len("Request Timeout")
+			for _, n := range flushedAt {
+				if n == pre && string(rw.body[:pre]) == string(wantBody[:n]) && rw.code == wantCode &&
+					reflect.DeepEqual(rw.snap, wantHdr) {
+					isTimeout = true
+				}
+			}
+		}
 		late := rw.late
 		rw.mu.Unlock()
 		out.Iters++
